@@ -22,7 +22,13 @@ cmd = ["/venv/bin/python", "-m", "pytest", "-q", "-p", "no:cacheprovider", "--ti
        "--continue-on-collection-errors", "--junitxml=" + xmlf] + sys.argv[2:]
 p = subprocess.run(cmd, cwd=repo, env=env, stdout=subprocess.PIPE, stderr=subprocess.STDOUT, text=True)
 passed = set()
-for tc in ET.parse(xmlf).getroot().iter("testcase"):
+try:
+    root = ET.parse(xmlf).getroot()
+except Exception as e:  # pytest did not get as far as writing its report
+    print("stable_pass=%d passed_now=? missing=? (no junit report: %s)" % (len(base["stable_pass"]), e))
+    print(p.stdout[-3000:])
+    sys.exit(2)
+for tc in root.iter("testcase"):
     if not any(c.tag in ("failure", "error", "skipped") for c in tc):
         passed.add(tc.get("classname") + "::" + tc.get("name"))
 os.unlink(xmlf)
